@@ -5,6 +5,7 @@ package main
 
 import (
 	"fmt"
+	"os"
 	"go/ast"
 	"go/token"
 	"go/types"
@@ -205,7 +206,7 @@ func (fx *FnExec) frameEnv(st *State, fr *frame) *evalEnv {
 		// captured by reference: pointer to a cell => expose the content
 		if pt, isPtr := fv.Type().Underlying().(*types.Pointer); isPtr {
 			if lv := st.lvOf(fv); lv != nil {
-				env.vars[fv.Name()] = cval{t: st.load(lv), typ: pt.Elem(), sort: lv.elemSort}
+				env.vars[fv.Name()] = cval{t: st.load(lv), typ: pt.Elem(), sort: lv.elemSort, lv: lv, cell: true}
 				continue
 			}
 		}
@@ -320,6 +321,20 @@ func (fx *FnExec) loopEnter(st *State, fr *frame, h *loopHdr, b, pred *ssa.Basic
 			if bo, ok := e.(*ssa.BinOp); ok && bo.Op == token.ADD && bo.X == phi {
 				if c, ok := bo.Y.(*ssa.Const); ok && c.Value != nil && c.Int64() > 0 {
 					st.assume("(>= " + st.vals[phi] + " " + entryVals[phi] + ")")
+					// range-style loops: the header tests (phi + c) < bound with a
+					// loop-invariant bound, so a value that came round the back
+					// edge is below the bound
+					if br, ok := b.Instrs[len(b.Instrs)-1].(*ssa.If); ok {
+						if cmp, ok := br.Cond.(*ssa.BinOp); ok && cmp.Op == token.LSS && cmp.X == ssa.Value(bo) && bo.Block() == b {
+							if bi, isIns := cmp.Y.(ssa.Instruction); !isIns || !h.body[bi.Block()] {
+								if bt, has := st.vals[cmp.Y]; has {
+									st.assume("(or (= " + st.vals[phi] + " " + entryVals[phi] + ") (< " + st.vals[phi] + " " + bt + "))")
+								} else if _, isC := cmp.Y.(*ssa.Const); isC {
+									st.assume("(or (= " + st.vals[phi] + " " + entryVals[phi] + ") (< " + st.vals[phi] + " " + st.val(cmp.Y) + "))")
+								}
+							}
+						}
+					}
 				}
 			}
 		}
@@ -474,6 +489,18 @@ func (ms *modScan) derivedInvariant(fn *ssa.Function, v ssa.Value) (Term, bool) 
 		}
 		fa, ok := x.X.(*ssa.FieldAddr)
 		if !ok {
+			// load from a local / captured cell the loop does not write
+			switch x.X.(type) {
+			case *ssa.FreeVar, *ssa.Alloc, *ssa.Parameter:
+				if _, inv := ms.invariantVal(fn, x.X); !inv {
+					return "", false
+				}
+				lv := ms.st.lvOf(x.X)
+				if lv == nil || lv.kind != lvHeap || isGlobalLV(lv) || ms.modNames[lv.heap] {
+					return "", false
+				}
+				return ms.st.load(lv), true
+			}
 			return "", false
 		}
 		base, ok := ms.invariantVal(fn, fa.X)
@@ -529,7 +556,14 @@ func (fx *FnExec) loopMods(st *State, fr *frame, h *loopHdr) map[string]modInfo 
 	for k := range p1 {
 		names[k] = true
 	}
-	return fx.loopModsPass(st, fr, h, names)
+	res := fx.loopModsPass(st, fr, h, names)
+	if os.Getenv("GVC_DEBUG_MODS") != "" {
+		for _, n := range sortedKeys(res) {
+			mi := res[n]
+			fmt.Fprintf(os.Stderr, "loopmods %s loop%d: %s whole=%v fresh=%v points=%d\n", fr.fn.Name(), h.ord, n, mi.whole, mi.hasFresh, len(mi.points))
+		}
+	}
+	return res
 }
 
 func (fx *FnExec) loopModsPass(st *State, fr *frame, h *loopHdr, names map[string]bool) map[string]modInfo {
@@ -644,7 +678,7 @@ func (ms *modScan) storeTarget(fn *ssa.Function, addr ssa.Value) {
 func (ms *modScan) mapMod(mt *types.Map, fresh bool) { ms.mapModAt(mt, fresh, "") }
 
 func (ms *modScan) mapModAt(mt *types.Map, fresh bool, point Term) {
-	ks, vs := ms.fx.sortOf(mt.Key()), ms.fx.sortOf(mt.Elem())
+	ks, vs := ms.fx.mapKV(mt)
 	ms.addAt(mapInName(ks, vs), "(Array Int (Array "+ks+" Bool))", fresh, point)
 	ms.addAt(mapValName(ks, vs), "(Array Int (Array "+ks+" "+vs+"))", fresh, point)
 	ms.addAt("MapLen", arrOf("Int"), fresh, point)
@@ -896,7 +930,10 @@ func (ms *modScan) contractModsAt(fn *ssa.Function, cc *ssa.CallCommon, tgt call
 				out = append(out, pm{"ghost." + x.Fn, ms.fx.ghostSort(g), env.eval(x.Args[0]).t})
 			}
 		default:
-			panic("not point")
+			// not a single location: the whole variable(s)
+			for _, hv := range ms.fx.staticModTargets(m, tgt.fc, tgt.fn) {
+				out = append(out, pm{hv.name, hv.sort, "!poison"})
+			}
 		}
 	}
 	for _, m := range tgt.fc.Modifies {
@@ -1018,7 +1055,7 @@ func (fx *FnExec) staticModTargetsTyped(m Expr, vars map[string]types.Type, pkg 
 				panic(evalErr{"modifies: cannot type " + x.Args[0].String()})
 			}
 			mt := mt0.Underlying().(*types.Map)
-			ks, vs := fx.sortOf(mt.Key()), fx.sortOf(mt.Elem())
+			ks, vs := fx.mapKV(mt)
 			return []heapVarRef{{mapInName(ks, vs), "(Array Int (Array " + ks + " Bool))"}, {mapValName(ks, vs), "(Array Int (Array " + ks + " " + vs + "))"}, {"MapLen", arrOf("Int")}}
 		case "mem":
 			st0 := fx.staticType(x.Args[0], vars, pkg)
@@ -1036,6 +1073,13 @@ func (fx *FnExec) staticModTargetsTyped(m Expr, vars map[string]types.Type, pkg 
 	case *EIdent:
 		if g, ok := fx.P.Specs.Ghosts[x.Name]; ok {
 			return []heapVarRef{{"ghost." + x.Name, fx.ghostSort(g)}}
+		}
+		if t, ok := vars[x.Name]; ok {
+			// a captured variable (cell)
+			if _, isStruct := t.Underlying().(*types.Struct); !isStruct {
+				srt := fx.sortOf(t)
+				return []heapVarRef{{"Cell." + sanitize(srt), arrOf(srt)}}
+			}
 		}
 	}
 	panic(evalErr{"unsupported modifies target " + m.String()})
